@@ -207,7 +207,16 @@ def run_case(case, ctx):
     try:
         with np.errstate(all='ignore'):
             if case['via'] == 'Taylor':
-                coefs, info = fb.Taylor(f, n=n_given, **kw)(z0_given)
+                tobj = fb.Taylor(f, n=n_given, **kw)
+                if (case['n'] + int(abs(case['z0'][0]) * 100)) % 2:
+                    # the object has expanded the function about another point before (same n)
+                    ctx.count('taylor_object_used_before_at_another_point')
+                    try:
+                        tobj((z0 + 0.37) if not isinstance(z0, complex) else (z0 - 0.21 + 0.13j))
+                    except Exception:
+                        pass
+                    _T.clear()
+                coefs, info = tobj(z0_given)
             else:
                 coefs, info = fb.taylor(f, z0_given, n=n_given, **kw)
             if case['via'] == 'derivative':
